@@ -586,6 +586,10 @@ def main(run_fn, prop, level="model_checking"):
 def run_driver_checked(ctx, exe, args, timeout=600, what="driver", replay_src=None, env=None, ok_codes=(0,)):
     """Run a conformance driver.  A crash (signal), abnormal exit or hang of the code under test is a
     violation in its own right (no property tolerates it on inputs the property quantifies over)."""
+    if "(" in what and any(v[0].startswith("hang/") for v in ctx.violations):
+        # a sanitizer / monitor build of a driver that already did not terminate as a plain build would only wait for the same time-out again
+        ctx.notes.append("%s skipped: the plain build of this driver already hung" % what)
+        return False, "", ""
     rc, out, err = run_driver(exe, args, timeout=timeout, env=env)
     if rc in ok_codes:
         return True, out, err
@@ -655,6 +659,9 @@ def run_driver_sharded(ctx, exe, lines, out_path, what="driver", nshards=None, t
     """Run a script-driven driver (exe <script> <trace-out>) on `lines` split into shards that run in parallel;
     the traces are concatenated in shard order into out_path.  Returns True if every shard exited normally."""
     import concurrent.futures as cf
+    if "(" in what and any(v[0].startswith("hang/") for v in ctx.violations):
+        ctx.notes.append("%s skipped: the plain build of this driver already hung" % what)
+        return False
     nshards = max(1, min(nshards or NCPU, len(lines)))
     per = (len(lines) + nshards - 1) // nshards
     parts = [lines[i:i + per] for i in range(0, len(lines), per)]
